@@ -60,6 +60,7 @@ def norm_native(top):
     # zsubj/q5.worker -> worker ; Main.func1 -> main$1 ; Main.func1.1 -> main$1$1 ; WT.Run -> (WT).Run ; (*WT).Run stays
     top = top.replace('Main.func', 'main$')
     top = re.sub(r'\$(\d+)\.(\d+)', r'$\1$\2', top)
+    top = top.replace("[...]", "")
     if re.match(r'^[A-Z]\w*\.\w+$', top) and not top.startswith('main'):
         t, m = top.split('.')
         top = f'({t}).{m}'
